@@ -145,8 +145,10 @@ lu = Fn(LUP + 'lu', ret='r', level='L1', valid=LUV, panics={1: 'REJECT'}, rewrit
                ('lu[i * n + j] = lu[i * n + j] - (s);', 'pre', 'let ghost pre_lu = lu@; proof { lemma_idx(i as int, j as int, n as int, n as int); }'),
                ('lu[i * n + j] = lu[i * n + j] - (s);', 'post', 'proof { ' + FRAME.format(R='i', C='j') + ' assert(bounded(lu@, n as int, j as int)) by { assert forall|r: int, c: int| 0 <= c < j && c < r < n implies r_abs(rv(#[trigger] at2(lu@, n as int, r, c))) <= 1real by { assert(r_abs(rv(at2(pre_lu, n as int, r, c))) <= 1real); } } }'),
                ('pivots.swap(p, j);', 'before', 'proof { lemma_perm32_swap(pivots@, n as int, p as int, j as int); }'),
-               ('if j < n && lu[j * n + j] != 0.', 'before', 'proof { lemma_idx(j as int, j as int, n as int, n as int); assert(colmax(lu@, n as int, j as int, j as int, j as int, n as int)); }'),
                ])
+# pivot-column fact at structural positions (see Matrix::lu below): after the pivot search and after the row swap
+lu.loops[4]['after'] = 'lemma_idx(j as int, j as int, n as int, n as int); assert(colmax(lu@, n as int, j as int, p as int, j as int, n as int));'
+lu.loops[5]['after'] = 'lemma_idx(j as int, j as int, n as int, n as int); assert(colmax(lu@, n as int, j as int, j as int, j as int, n as int));'
 
 UNITS.append(Unit('C11_lu', ('C11', 'C01'), [lu], use=[is_square], types=core.TYPES, type_spec=core.TYPE_SPEC, spec=SPEC + LU_SPEC, nra=LU_NRA, preludes=PRE, broadcast=BC,
                   level='L1', rlimit=300,
@@ -194,8 +196,11 @@ mlu = Fn(IM + 'lu', ret='r', level='L1', valid='self.nrows == self.ncols', panic
                 ('for j in 0..n', 'before', 'proof { assert(is_perm32(pivots@, n as int)); }'),
                 ('lu[[i, j]] = lu[[i, j]] - (s);', 'pre', 'let ghost pre_lu = lu.data.v@; proof { lemma_idx(i as int, j as int, n as int, n as int); }'),
                 ('lu[[i, j]] = lu[[i, j]] - (s);', 'post', 'proof { ' + MFRAME.format(R='i', C='j') + ' ' + KEEP + ' }'),
-                ('pivots.swap(p, j);', 'before', 'proof { lemma_perm32_swap(pivots@, n as int, p as int, j as int); }'),
-                ('if j < n && lu[[j, j]] != 0.', 'before', 'proof { assert(colmax(lu.data.v@, n as int, j as int, j as int, j as int, n as int)); }')])
+                ('pivots.swap(p, j);', 'before', 'proof { lemma_perm32_swap(pivots@, n as int, p as int, j as int); }')])
+# the pivot-column fact is stated at structural positions (after the pivot search, after the row swap), not in front of the text of the zero-pivot guard,
+# so that an edited guard is decided by the verifier instead of losing an anchor
+mlu.loops[4]['after'] = 'assert(colmax(lu.data.v@, n as int, j as int, p as int, j as int, n as int));'
+mlu.loops[5]['after'] = 'assert(colmax(lu.data.v@, n as int, j as int, j as int, j as int, n as int));'
 
 UNITS.append(Unit('C11_matrix_lu', ('C11', 'C01'), [mlu], use=core.core_stubs(), types=core.TYPES, type_spec=core.TYPE_SPEC, spec=SPEC + LU_SPEC, nra=LU_NRA, preludes=PRE, broadcast=BC,
                   level='L1', rlimit=300,
